@@ -58,9 +58,12 @@ pub enum Wrap {
     /// the reference sits in the initialiser of a top-level `let` (root position only; inside a
     /// module it is rendered like `Plain`)
     GlobalLet,
+    /// the reference sits in the initialiser of a `let` that binds the very same name
+    /// (`let fa = fa()  fa + 0.0`): a `let` is not recursive, so the initialiser still sees the import
+    SelfInit,
 }
 impl Wrap {
-    pub const ALL: [Wrap; 8] = [Wrap::Plain, Wrap::Lambda, Wrap::ShadowLet, Wrap::ShadowParam, Wrap::ShadowLam, Wrap::ShadowInLambda, Wrap::ScopeEnd, Wrap::GlobalLet];
+    pub const ALL: [Wrap; 9] = [Wrap::Plain, Wrap::Lambda, Wrap::ShadowLet, Wrap::ShadowParam, Wrap::ShadowLam, Wrap::ShadowInLambda, Wrap::ScopeEnd, Wrap::GlobalLet, Wrap::SelfInit];
     pub fn name(&self) -> &'static str {
         match self {
             Wrap::Plain => "plain",
@@ -71,6 +74,7 @@ impl Wrap {
             Wrap::ShadowInLambda => "shadow-let-in-lambda",
             Wrap::ScopeEnd => "scope-end",
             Wrap::GlobalLet => "global-let",
+            Wrap::SelfInit => "let-of-same-name",
         }
     }
     pub fn parse(s: &str) -> Wrap {
@@ -81,7 +85,7 @@ impl Wrap {
         matches!(self, Wrap::ShadowLet | Wrap::ShadowParam | Wrap::ShadowLam | Wrap::ShadowInLambda)
     }
     pub fn needs_unqualified(&self) -> bool {
-        self.shadows() || *self == Wrap::ScopeEnd
+        self.shadows() || *self == Wrap::ScopeEnd || *self == Wrap::SelfInit
     }
 }
 
@@ -325,6 +329,7 @@ pub fn render_probe(pr: &Probe, in_module: bool, ind: &str) -> String {
         Wrap::ScopeEnd => format!("{ind}{vis}fn {name}(){{\n{ind}  let v = {{\n{ind}    let {n} = | | {s}\n{ind}    {n}()\n{ind}  }}\n{ind}  {r} + v * 0.0\n{ind}}}\n"),
         Wrap::GlobalLet if !in_module => format!("let g{name} = {r}\nfn {name}(){{ g{name} }}\n"),
         Wrap::GlobalLet => format!("{ind}{vis}fn {name}(){{ {r} }}\n"),
+        Wrap::SelfInit => format!("{ind}{vis}fn {name}(){{\n{ind}  let {n} = {r}\n{ind}  {n} + 0.0\n{ind}}}\n"),
     }
 }
 
